@@ -58,7 +58,9 @@ func loopEntry[T any](x T) T                     { return x }
 func exactCmpIF(i int64, f float64) int          { return 0 }
 func errIsCtx(err error) bool                    { return false }
 func sameSlice[T any](a, b []T) bool             { return len(a) == len(b) }
-func sameVal[T any](a, b T) bool                  { return true }
+func sameVal[T any](a, b T) bool                 { return true }
+func sameBase[T any](a, b []T) bool              { return true }
+func freshBase[T any](a []T) bool                { return true }
 func uninterp[T any](name string, args ...any) T { var z T; return z }
 func outCount() int                              { return 0 }
 func outFirst() any                              { return nil }
@@ -204,24 +206,31 @@ func outLast() any                               { return nil }
 //@ modifies l.srcPos, l.lastCharLen, l.column, l.line, l.lastLineLen, l.errors, l.tokEnd, l.strBuf
 //@ ensures [C04] stop-means-error-or-eof: r0 < 0 ==> r0 == -1
 //@ ensures [C04] errors-only-grow: len(l.errors) >= old(len(l.errors))
+//@ ensures [C04] progress: l.srcPos >= old(l.srcPos) && (r0 >= 0 ==> l.srcPos > old(l.srcPos))
 
 //@ func (*lexer).decodeUnicode
 //@ props C03 C04
 //@ modifies l.srcPos, l.lastCharLen, l.column, l.line, l.lastLineLen, l.errors, l.tokEnd
 //@ loop 1 invariant [C03] code-point-bound: rr >= 0 && i >= 0 && i <= 6 && (i == 0 ==> rr == 0) && (i == 1 ==> rr < 16) && (i == 2 ==> rr < 256) && (i == 3 ==> rr < 4096) && (i == 4 ==> rr < 65536) && (i == 5 ==> rr < 1048576) && rr < 16777216
 //@ loop 1 invariant [C04] errors-grow: len(l.errors) >= old(len(l.errors))
+//@ loop 1 invariant [C04] advanced: l.srcPos > old(l.srcPos)
 //@ loop 1 decreases 6 - i
 //@ loop 2 invariant [C03] four-digits: rr >= 0 && rangeindex2 >= 0 && rangeindex2 <= 2 && (rangeindex2 == 0 ==> rr < 16) && (rangeindex2 == 1 ==> rr < 256) && (rangeindex2 == 2 ==> rr < 4096) && len(l.errors) >= old(len(l.errors))
+//@ loop 2 invariant [C04] advanced-4: l.srcPos > old(l.srcPos)
 //@ ensures [C03 C04] never-nul: r0 != 0
 //@ ensures [C04] stop-is-error: r0 < 0 ==> r0 == -1 && len(l.errors) > old(len(l.errors))
 //@ ensures [C03] range: r0 <= 16777215
 //@ ensures [C04] errors-only-grow: len(l.errors) >= old(len(l.errors))
+//@ ensures [C04] progress: l.srcPos >= old(l.srcPos) && (r0 >= 0 ==> l.srcPos > old(l.srcPos))
 
 //@ func (*lexer).Lex
 //@ props C03 C04
 //@ modifies l.*, lval.str
 //@ loop 1 invariant [C04] errors-grow: len(l.errors) >= old(len(l.errors))
 //@ loop 2 invariant [C04] errors-grow-ws: len(l.errors) >= old(len(l.errors))
+//@ loop 1 decreases [C04] (l.srcEnd-l.srcPos)*2 + ite(ch >= 0, 1, 0)
+//@ loop 2 invariant [C04] ws-monotone: l.srcPos >= loopEntry(l.srcPos) && l.srcPos <= l.srcEnd
+//@ loop 2 decreases [C04] (l.srcEnd-l.srcPos)*2 + ite(ch >= 0, 1, 0)
 //@ ensures [C03] value-is-token-text: lval.str == callret[string](l.tokenText, 0) && ncalls(l.tokenText) == 1
 //@ ensures [C04] errors-only-grow: len(l.errors) >= old(len(l.errors))
 //@ ensures [C04] buffer-unchanged: sameSlice(l.srcBuf, old(l.srcBuf)) && l.srcEnd == old(l.srcEnd)
@@ -239,6 +248,7 @@ func outLast() any                               { return nil }
 //@ ensures [C03] appends-one-code-point: len(l.errors) == old(len(l.errors)) ==> outCount() == 1 && is[rune](outLast()) && as[rune](outLast()) > 0 && as[rune](outLast()) <= 255
 //@ ensures [C04] errors-only-grow: len(l.errors) >= old(len(l.errors))
 //@ ensures [C04] invalid-is-error: r0 == -1 && ncalls(l.next) < 3 ==> len(l.errors) > old(len(l.errors))
+//@ ensures [C04] progress: l.srcPos >= old(l.srcPos) && (r0 >= 0 ==> l.srcPos > old(l.srcPos))
 
 //@ func (*lexer).scanEscape
 //@ props C03 C02 C04
@@ -254,9 +264,11 @@ func outLast() any                               { return nil }
 //@ ensures [C04] dangling-backslash: firstret[rune](l.next, 0) == -1 ==> r0 == -1 && len(l.errors) > old(len(l.errors))
 //@ ensures [C04] errors-only-grow: len(l.errors) >= old(len(l.errors))
 //@ ensures [C04] stop-value: r0 < 0 ==> r0 == -1
+//@ ensures [C04] progress: l.srcPos >= old(l.srcPos) && (r0 >= 0 ==> l.srcPos > old(l.srcPos))
 
 //@ func (*lexer).scanString
 //@ requires ret >= 0
+//@ loop 1 decreases [C04] (l.srcEnd-l.srcPos)*2 + ite(ch >= 0, 1, 0)
 //@ props C03 C04
 //@ modifies l.srcPos, l.lastCharLen, l.column, l.line, l.lastLineLen, l.errors, l.tokEnd, l.strBuf, l.gotString
 //@ loop 1 invariant [C04] errors-grow: len(l.errors) >= old(len(l.errors))
@@ -266,17 +278,21 @@ func outLast() any                               { return nil }
 
 //@ func (*lexer).scanComment
 //@ props C03 C04
+//@ loop 1 decreases [C04] (l.srcEnd-l.srcPos)*2 + ite(ch >= 0, 1, 0)
 //@ requires [C03] lookahead-just-read: ch >= 0 && ch < 128 ==> l.lastCharLen == 1 && l.srcPos >= 1 && rune(l.srcBuf[l.srcPos-1]) == ch
 //@ loop 1 invariant [C03] lookahead-just-read-inv: ch >= 0 && ch < 128 ==> l.lastCharLen == 1 && l.srcPos >= 1 && rune(l.srcBuf[l.srcPos-1]) == ch
 //@ loop 1 invariant [C04] buffer-same: sameSlice(l.srcBuf, old(l.srcBuf)) && l.srcEnd == old(l.srcEnd)
+//@ loop 1 invariant [C04] monotone: l.srcPos >= old(l.srcPos)
 //@ ensures [C03] resumes-right-after-close: old(ch) == '*' && len(l.errors) == old(len(l.errors)) ==> l.srcPos-l.lastCharLen >= 2 && l.srcBuf[l.srcPos-l.lastCharLen-1] == '/' && l.srcBuf[l.srcPos-l.lastCharLen-2] == '*'
 //@ modifies l.srcPos, l.lastCharLen, l.column, l.line, l.lastLineLen, l.errors, l.tokEnd
 //@ loop 1 invariant [C04] errors-grow: len(l.errors) >= old(len(l.errors))
+//@ ensures [C04] progress: l.srcPos >= old(l.srcPos) && l.srcPos <= l.srcEnd
 //@ ensures [C03] not-a-comment: ch != '*' ==> r0 == '/' && ncalls(l.next) == 0
 //@ ensures [C04] errors-only-grow: len(l.errors) >= old(len(l.errors))
 
 //@ func (*lexer).scanVariable
 //@ props C03 C04
+//@ loop 1 decreases [C04] (l.srcEnd-l.srcPos)*2 + ite(ch >= 0, 1, 0)
 //@ modifies l.srcPos, l.lastCharLen, l.column, l.line, l.lastLineLen, l.errors, l.tokEnd, l.strBuf, l.gotString
 //@ loop 1 invariant [C04] errors-grow: len(l.errors) >= old(len(l.errors))
 //@ ensures [C03] quoted: firstret[rune](l.next, 0) == '"' ==> ncalls(l.scanString) == 1 && callarg[rune](l.scanString, "ret") == VARIABLE_P && r0 == callret[rune](l.scanString, 0) && r1 == callret[rune](l.scanString, 1)
@@ -286,6 +302,7 @@ func outLast() any                               { return nil }
 
 //@ func (*lexer).scanIdent
 //@ props C03 C04
+//@ loop 1 decreases [C04] (l.srcEnd-l.srcPos)*2 + ite(ch >= 0, 1, 0)
 //@ modifies l.srcPos, l.lastCharLen, l.column, l.line, l.lastLineLen, l.errors, l.tokEnd, l.strBuf, l.gotString
 //@ loop 1 invariant [C04] errors-grow: len(l.errors) >= old(len(l.errors))
 //@ ensures [C04] error-stops: len(l.errors) > 0 ==> r0 == -1
